@@ -65,6 +65,42 @@ func VH_C14_LadnToModels() {
 	_ = LadnToModels(buf)
 }
 
+// long contents: a first (optional 1-octet) entry, then an entry whose length octet takes the boundary values of an
+// octet (63, 64, 127, 128, 254, 255) with that many symbolic value octets actually present, then 0..3 more octets.
+// Reaches what the short inputs cannot: arithmetic on a length octet near 255.
+func c14long() []byte {
+	l0 := []int{63, 64, 127, 128, 254, 255}[vrt.Choose("lenClass", 0, 5)]
+	pre := vrt.Choose("entryBefore", 0, 1)
+	tail := vrt.Choose("tail", 0, 3)
+	var buf []byte
+	if pre == 1 {
+		buf = append(buf, 1, vrt.U8("p0"))
+	}
+	buf = append(buf, byte(l0))
+	buf = append(buf, vrt.Bytes("body", l0+tail)...)
+	return buf
+}
+
+func VH_C14_LadnToModels_long() {
+	vrt.Unwind(40)
+	buf := c14long()
+	got := LadnToModels(buf)
+	if got != nil {
+		vrt.Assert(len(got) >= 1 && len(got) <= 6, "LADN: a well-formed long indication yields its entries")
+	}
+}
+
+func VH_C14_RequestedNssaiToModels_long() {
+	vrt.Unwind(40)
+	buf := c14long()
+	if len(buf) > 255 {
+		buf = buf[:255]
+	}
+	nssai := &nasType.RequestedNSSAI{Iei: 0x2f, Len: uint8(len(buf)), Buffer: buf}
+	_, err := RequestedNssaiToModels(nssai)
+	_ = err
+}
+
 func VH_C14_UESecurityCapabilityToByteArray() {
 	buf := vrt.Bytes("b", c14n())
 	_, _, _, _ = UESecurityCapabilityToByteArray(buf)
